@@ -3,6 +3,7 @@ package main
 import (
 	"fmt"
 	"go/token"
+	"go/types"
 	"sort"
 	"strings"
 
@@ -323,4 +324,69 @@ func (c *Ctx) capacityCountGuards() {
 			c.check(op == token.GTR, R, fnName(f)+": overflow is 'count > capacity'", bo.Pos(), "refuses for size + added > capacity", fmt.Sprintf("%s refuses a write when size + added %s capacity; a write that fills the cell exactly fits (the limit is inclusive): it must refuse only for size + added > capacity", fnName(f), op))
 		}
 	}
+}
+
+// cursorOnSuccess: a reader that fails leaves the cursors where they were. In every exported
+// reading method of Cell and BitString, no store that advances a read cursor can be followed (in
+// the same call) by a return of a failure: `c.refCursor++` before `if ref == nil { return
+// ErrNotEnoughRefs }` consumes a slot on a read that delivered nothing - the tolerant callers that
+// probe for an optional reference then skip a real one added later.
+func (c *Ctx) cursorOnSuccess() {
+	const R = "E8.cursor-accounting"
+	p := c.pkg("boc")
+	if p == nil {
+		return
+	}
+	n := 0
+	for _, tn := range []string{"Cell", "BitString"} {
+		named, ok := p.Types.Scope().Lookup(tn).Type().(*types.Named)
+		if !ok {
+			continue
+		}
+		for i := 0; i < named.NumMethods(); i++ {
+			m := named.Method(i)
+			if !m.Exported() || !(strings.HasPrefix(m.Name(), "Read") || strings.HasPrefix(m.Name(), "Next") || m.Name() == "Skip") {
+				continue
+			}
+			f := c.Prog.FuncValue(m)
+			if f == nil || len(f.Blocks) == 0 || errIndex(f.Signature) < 0 {
+				continue
+			}
+			ei := errIndex(f.Signature)
+			allInstrs(f, func(b *ssa.BasicBlock, in ssa.Instruction) {
+				st, ok := in.(*ssa.Store)
+				if !ok {
+					return
+				}
+				of, ok := ownerField(st.Addr)
+				if !ok || (of != "boc.BitString.rCursor" && of != "boc.Cell.refCursor") {
+					return
+				}
+				bo, ok := st.Val.(*ssa.BinOp)
+				if !ok || bo.Op != token.ADD {
+					return
+				}
+				n++
+				// a failure return reachable after this store (same block after it, or any successor)
+				leak := token.NoPos
+				for blk := range reachableFrom(b, nil) {
+					if len(blk.Instrs) == 0 {
+						continue
+					}
+					r, ok := blk.Instrs[len(blk.Instrs)-1].(*ssa.Return)
+					if !ok {
+						continue
+					}
+					if blk == b {
+						// the return of the block that holds the store
+					}
+					if classifyErr(f, retVal(r, ei), blk, 0) == errNonNil {
+						leak = r.Pos()
+					}
+				}
+				c.check(leak == token.NoPos, R, tn+"."+m.Name()+" advances the cursor only on the way to success", st.Pos(), "no failure return reachable after the advance", fmt.Sprintf("%s.%s advances the read cursor and can still return a failure afterwards (at %s): a read that delivered nothing has consumed a position", tn, m.Name(), c.rel(leak)))
+			})
+		}
+	}
+	_ = n
 }
